@@ -118,6 +118,7 @@ loop:
 			err = fmt.Errorf("Starlark computation cancelled: %s", *reason)
 			break loop
 		}
+		vStep(thread, fn, pc)
 
 		fr.pc = pc
 
